@@ -183,7 +183,7 @@ func runC06(c *checker) {
 		}
 		c.c06Evaluate(fmt.Sprintf("seed=%d opts=%s", cs.seed, cs.opts), cs.inj.Class, cs.inj.Name, c.c06Input(cs), cs.res)
 	}
-	c.rep.Rule = "valid random multi-file programs (nested directories, every annotation) + exactly one collision-seeking injection each, × CLI option sets: class A (file named like an imported std/runtime package; fields, arguments, types, constants, functions named like Go keywords, predeclared identifiers, template-local variables, initialisms/SCREAMING_CASE; enum items named like generated methods; shared labels) must be accepted and build+vet; class B (identifiers equal after Go-casing, enum item vs type, constant vs type, fields named like generated methods/accessors, user types named like primitives, invalid/duplicate go.name, duplicate labels, duplicate exception in throws, fields/arguments named ErrorName / MarshalLogObject / MethodName / EnvelopeType, clashing argument names) may be rejected, but if accepted must build+vet; class K = probes of the known findings D15 D21 D24 D71 (reported as known, never as disagreements); the shapes of the repaired findings D9 D13 D23 D26 D27 are ordinary class B (D11, D12, D14, D70: class A) injections and corpus entries; non-trivial = every program; distinct by (seed, options)"
+	c.rep.Rule = "valid random multi-file programs (nested directories, every annotation) + exactly one collision-seeking injection each, × CLI option sets: class A (file named like an imported std/runtime package; fields, arguments, types, constants, functions named like Go keywords, predeclared identifiers, template-local variables, initialisms/SCREAMING_CASE; enum items named like generated methods; shared labels) must be accepted and build+vet; class B (identifiers equal after Go-casing, enum item vs type, constant vs type, fields named like generated methods/accessors, user types named like primitives, invalid/duplicate go.name, duplicate labels, duplicate exception in throws, go.name equal to a generated method, fields/arguments named ErrorName / MarshalLogObject / MethodName / EnvelopeType, clashing argument names) may be rejected, but if accepted must build+vet; files whose name cannot be a Go package name — keywords, main, dots, a leading digit: findings D71 D84, repaired; class K = probes of the known findings D15 D21 D24 D80 (reported as known, never as disagreements); the shapes of the repaired findings D9 D13 D23 D26 D27 are ordinary class B (D11, D12, D14, D70: class A) injections and corpus entries; non-trivial = every program; distinct by (seed, options)"
 }
 
 func init() { modes["C06"] = runC06 }
